@@ -50,7 +50,7 @@ CHECKS = {
              text="Dry-run part on the in-process harness: tree and log meaning before/after, prediction equals the reference (superset with restat). Tool part on the real binary: commands, commands -s, inputs, multi-inputs, query, targets (all/depth/rule), rules (-d), graph, compdb (all/rule), compdb-targets, deps (all/target), missingdeps on fresh and built-then-changed trees; the builds that follow must behave as if the tools had not run (engine monitors on the same trace)."),
  "C18": dict(cat="model_checking", ref="6.C18", tech="clean scopes as TLA+ set comprehensions (RefTrace.tla CleanScope) checked by TLC on executions of the real Cleaner (all / targets / rules / -g / -n / cleandead) over generated graphs, tree states and manifest variants",
              text="For every generated graph x tree state x scope: removed files lie inside the scope and outside sources / phony names / (without -g) generator outputs, every existing file of the scope is removed (dry run: counted, nothing removed), and the following build re-creates everything (C01 monitor on the same trace)."),
- "C12": dict(cat="model_checking", ref="6.C12", engine="function-reference", tech="TLA+ reference evaluator over manifest ASTs (Manifest.tla: scopes, immediate/late expansion, include vs subninja, constraints); TLC evaluates it on seed-sampled programs of a bounded grammar, renders them to text and exports (files, expected graph or error); each program (in two layouts) is parsed by the real ManifestParser and the dumped State compared; token level: a reference parser over token sequences (ManifestTok.tla) judges every single-token mutation (deletion, duplication, swap, substitution, insertion, truncation; tab indentation and bad escapes included) of valid token-level programs, one TLC state and one implementation test per mutant",
+ "C12": dict(cat="model_checking", ref="6.C12", engine="function-reference", tech="TLA+ reference evaluator over manifest ASTs (Manifest.tla: scopes, immediate/late expansion, include vs subninja, constraints); TLC evaluates it on seed-sampled programs of a bounded grammar, renders them to text and exports (files, expected graph or error); each program (in two layouts) is parsed by the real ManifestParser and the dumped State compared; token level: a reference parser over token sequences (ManifestTok.tla) judges every single-token mutation (deletion, duplication, swap, substitution, insertion, truncation; tab indentation and bad escapes included) of valid token-level programs, one TLC state and one implementation test per mutant; character level: a reference reader of values and paths ($-escapes, continuations, CRLF, separators; Lexer.tla), every string of the bounded space a TLC state and a test of the real Lexer",
              text="One TLC state per sampled program (the reference is total and classifies every rejection); every program is an implementation test: verdict, every edge's outputs, input kinds, validations, rule, pool, evaluated command/description/depfile/rspfile/rspfile_content/flags/dyndep, defaults and pools must equal the reference; rejections must carry a file:line diagnostic.",
              note="Trusted: TLC; Manifest.tla as the reading of the manual (two readings fixed in DESIGN.md 6.C12); paths/values come from a fixed vocabulary whose canonical and shell-quoted forms are tabulated in the spec; character-level lexing beyond the $-escapes used by the renderer is covered by C13 only for robustness."),
  "C13": dict(cat="exploration", ref="6.C13", engine="sanitizer-exploration", tech="bounded-exhaustive token strings of the alphabets in spec/Fuzz.tla and seeded mutations of TLC-rendered manifests and real logs, run through ASan+UBSan builds of the real parsers/loaders with a watchdog (harness/c13.cc)",
